@@ -21,7 +21,8 @@ def run(tier):
     blkfam = dict(peers=P, enabled=ev + ["Restart"], cat={"a1": attr("p1", "far", prev="p1", clockless=True),
                                                           "u1": attr("p1", "far", hasunk=True, unkf=("remove",)),
                                                           "u2": attr("p1", "p2", hasunk=True, unkf=(), copies=3),
-                                                          "o1": attr("p1", "far", clockless=True, hop=(9, 1), desc=True)})
+                                                          "o1": attr("p1", "far", clockless=True, hop=(9, 1), desc=True),
+                                                          "u3": attr("p1", "far", prev="p1", hasunk=True, unkf=("remove",), unkmore=2)})
     lifefam = dict(peers=P, enabled=ev + ["Advance", "CleanTick"], cat={"s1": attr("p1", "far", life="short"),
                                                                         "a2": attr("p1", "far", prev="p1", clockless=True, hop=(9, 1)),
                                                                         "a3": attr("p1", "far", clockless=True, life="short")})
